@@ -169,6 +169,9 @@ def typed_procs(kind: str, rng: random.Random) -> list:
     return out
 
 
+WF_ONLY = [False]   # when set, user coercers are restricted to those returning the target type
+
+
 def gen_scalar(rng: random.Random, kind: Optional[str] = None, allow_async: bool = True,
                simple: bool = False):
     kind = kind or rng.choice(KINDS)
@@ -177,7 +180,10 @@ def gen_scalar(rng: random.Random, kind: Optional[str] = None, allow_async: bool
     if kind in DEFAULT_CO and r < 0.6:
         co = Some((DEFAULT_CO[kind],))
     elif r > 0.85 and not simple:
-        co = Some(("CoUser", N(rng.choice([0, 1, 2, 4]))))
+        ids = [0, 1, 2, 4]
+        if WF_ONLY[0]:
+            ids = [0, 2, 4] if kind == "KInt" else [0]
+        co = Some(("CoUser", N(rng.choice(ids))))
     if simple:
         return ("Scalar", (kind,), co, [], [], [])
     npre = rng.choice([0, 0, 0, 1, 2, 3])
